@@ -8,7 +8,7 @@ import vf
 def run(ctx):
     ctx.assumptions += ["exact families: symmetric integer matrices assembled from 1x1 and [[a,b],[b,a]] blocks with an even integer spectrum (magnitude ratios 0.5..0.67, both signs), conjugated by a permutation; planted eigenpairs verified exactly by TLC",
                         "random symmetric matrices Q diag(lambda) Q^T with planted spectrum (ratios 0.1..0.8, either sign); QR inputs U diag(s) V^T with condition number up to 1e6 and integer matrices with zeros",
-                        "tolerances: spectrum 1e-10 ||M||, residual 1e-9 ||M||, parallelism 1e-9 (the library's own convergence thresholds are 1e-12 and 1e-10); every request in a child process with a 4 s limit"]
+                        "tolerances: spectrum 1e-10 ||M||, residual 1e-11 ||M||, parallelism 1e-9 (the library's own convergence thresholds are 1e-12 and 1e-10); every request in a child process with a 4 s limit"]
     out = os.path.join(ctx.work, "eig.out")
     ctx.mc("MC_Eigen", "MC_Eigen.cfg", env={"OUT": out})
     vec = os.path.join(ctx.work, "vectors.ndjson")
